@@ -13,7 +13,7 @@ import zlib
 from ..world import World
 from .. import net as N
 from .common import Server, read_msg, SERIALIZERS, SER_IDS
-from ..seams import config, CL, ST
+from ..seams import config, CL, ST, SV
 import Pyro5.api as api
 import Pyro5.errors as E
 import Pyro5.serializers as SER
@@ -84,10 +84,19 @@ class Victim:
         self._rec("gen", n)
         return (i for i in range(n))
 
+    def it(self, kind):
+        """item streams that are not generators (no close(), no throw())"""
+        self._rec("it", kind)
+        if kind % 3 == 0:
+            return iter([1, 2, 3, 4])
+        if kind % 3 == 1:
+            return map(str, range(4))
+        return zip("abcd", range(4))
+
 
 # ---------------------------------------------------------------------------------------------
 # message specs -> bytes (the harness's own encoder; payloads come from the real serializers)
-BASES = ["connect", "invoke", "boom", "ping", "ow", "batch", "garbage", "unknown_member", "private_member", "gen", "blob", "daemon_ping"]
+BASES = ["connect", "invoke", "boom", "ping", "ow", "batch", "garbage", "unknown_member", "private_member", "gen", "blob", "daemon_ping", "it"]
 OBJS = ["tok", "tok", "tok", "nope", "Pyro.Daemon"]
 BOUND8 = [0, 1, 0x7f, 0x80, 0xff]
 BOUND16 = [0, 1, 0x7fff, 0x8000, 0xffff]
@@ -183,6 +192,8 @@ def build_msg(spec):
         flags |= N.FLAG_ONEWAY
     elif base == "gen":
         payload = ser.dumpsCall(obj, "gen", [3], {})
+    elif base == "it":
+        payload = ser.dumpsCall(obj, "it", [spec["arg"]], {})
     elif base == "batch":
         calls = [("echo", ["HB%d" % spec["arg"]], {}), ("boom", [spec["arg"] % 9], {}), ("echo", ["never"], {})]
         payload = ser.dumpsCall(obj, "<batch>", calls, None)
@@ -302,10 +313,13 @@ class HostileWorld(World):
     STUB = ["sockets/selector (in-memory)", "threads (baton scheduler)", "time (virtual clock)", "hostile peers (raw scripted writers)"]
     PROBES = ["pool_full_refusal", "exc_response_fallback", "unknown_serializer", "oversize_refused", "truncated",
               "garbage", "hostile_after_handshake", "hostile_before_handshake", "rst_end", "witness_calls_ok", "fresh_client_ok",
-              "nasty_exception", "multiplex", "thread", "commtimeout", "stalling_peer"]
+              "nasty_exception", "multiplex", "thread", "commtimeout", "stalling_peer", "disconnect_hook_raised", "short_linger",
+              "logwire", "abandoned_stream_expired"]
     RULE = ("plan = (server type, COMMTIMEOUT, pool size 1..4, 1-2 witnesses x 3-6 calls, 1-3 hostile peers each with a script of "
             "1-4 message specs = valid base message + field mutations + truncation, end by close or RST, gaps, fragmentation, "
-            "selector shuffle, scheduling probabilities); distinct = distinct interleaving digest; non-trivial = at least one hostile "
+            "selector shuffle, scheduling probabilities; 25% of the plans give the daemon a clientDisconnect hook that raises (for "
+            "every connection or for the hostile ones), 35% ITER_STREAM_LINGER=0.5 s and 20% ITER_STREAM_LIFETIME=1 s so that item "
+            "streams (generators and plain iterators) abandoned by hostile peers expire during the run, 15% LOGWIRE); distinct = distinct interleaving digest; non-trivial = at least one hostile "
             "message was written while a witness was connected")
     ASSUMPTIONS = ["every hostile script ends in close or RST (a peer that stalls for ever without disconnecting blocks a timeout-less multiplex server by design)",
                    "witnesses complete their handshake before the first hostile peer starts and keep their connection for the whole run",
@@ -336,12 +350,22 @@ class HostileWorld(World):
                 end = "stall"       # stays connected and silent far longer than COMMTIMEOUT: the server's own timeout must end it
             peers.append({"start": rng.choice([0, 0, 0.01, 0.1, 0.4]), "msgs": msgs, "gap": rng.choice([0, 0, 0.01, 0.2]),
                           "read": rng.random() < 0.5, "end": end})
-        return {"servertype": servertype, "commtimeout": commt, "pool": [1, size], "witnesses": nwit,
+        plan = {"servertype": servertype, "commtimeout": commt, "pool": [1, size], "witnesses": nwit,
                 "witness_calls": rng.randint(3, 6), "witness_gap": rng.choice([0.0, 0.05, 0.2]),
                 "serializer": rng.choice(SERIALIZERS), "peers": peers,
                 "net": {"p_frag": rng.choice([0.0, 0.3, 0.8]), "shuffle_select": rng.random() < 0.5,
                         "rst_discards_rx": rng.random() < 0.3, "silent_first_epipe": rng.random() < 0.5},
                 "p_block": rng.choice([0.0, 0.2, 0.5, 1.0])}
+        # unusual but legal deployments (absent = library defaults, so that older replay files mean what they meant)
+        if rng.random() < 0.25:
+            plan["hook_raises"] = rng.choice(["all", "hostile"])      # the application's clientDisconnect hook fails
+        if rng.random() < 0.35:
+            plan["linger"] = 0.5         # abandoned item streams of hostile peers expire while the run lasts
+        if rng.random() < 0.2:
+            plan["lifetime"] = 1.0
+        if rng.random() < 0.15:
+            plan["logwire"] = True
+        return plan
 
     # ------------------------------------------------------------------
     def scenario(self, ctx):
@@ -363,7 +387,28 @@ class HostileWorld(World):
             ST.ClientConnectionJob.denyConnection = deny
 
     def _run(self, ctx, plan, sched, net):
-        srv = Server(ctx, plan["servertype"], pool=tuple(plan["pool"]), commtimeout=plan["commtimeout"])
+        if plan.get("linger") is not None:
+            config.ITER_STREAM_LINGER = plan["linger"]
+            ctx.probe("short_linger")
+        if plan.get("lifetime") is not None:
+            config.ITER_STREAM_LIFETIME = plan["lifetime"]
+        if plan.get("logwire"):
+            config.LOGWIRE = True
+            ctx.probe("logwire")
+        witness_conns = set()
+        mode = plan.get("hook_raises")
+
+        class HookDaemon(SV.Daemon):
+            """an application whose disconnect hook fails (a session table that does not know the client, say)"""
+
+            def clientDisconnect(self, conn):
+                c = getattr(getattr(conn, "sock", None), "conn", None)
+                if mode == "all" or c not in witness_conns:
+                    ctx.probe("disconnect_hook_raised")
+                    raise KeyError("no session for connection %r" % (c,))
+
+        srv = Server(ctx, plan["servertype"], pool=tuple(plan["pool"]), commtimeout=plan["commtimeout"],
+                     daemon_cls=HookDaemon if mode else None)
         victim = Victim(sched)
         uri = srv.register(victim, "tok")
         bound = [0]
@@ -383,6 +428,7 @@ class HostileWorld(World):
                 res.append(("bind", "ERR", type(x).__name__, str(x)[:100]))
                 bound[0] += 1
                 return
+            witness_conns.add(getattr(getattr(p._pyroConnection, "sock", None), "conn", None))
             bound[0] += 1
             for i in range(plan["witness_calls"]):
                 tok = "W%d.%d" % (wi, i)
@@ -509,7 +555,10 @@ class HostileWorld(World):
         hung = [t for t in hts if sched.sim_thread_of(t).state != "done"]
         if hung:
             ctx.violate("hostile-peer-stuck", "", "a hostile peer could not finish its script within 600 virtual seconds")
-        sched.sleep(max(2.0, plan["commtimeout"] * 2 + 1.0))
+        nstreams = len(srv.daemon.streaming_responses)
+        sched.sleep(max(2.0, plan["commtimeout"] * 2 + 1.0) + (3.0 if plan.get("linger") or plan.get("lifetime") else 0.0))
+        if nstreams and len(srv.daemon.streaming_responses) < nstreams:
+            ctx.probe("abandoned_stream_expired")
         stop[0] = True
         for t in wts:
             t.join(600.0)
